@@ -100,6 +100,33 @@ def newest_user_comment_is_command(world, pr_ids):
     return False
 
 
+def classify_non_convergence(world, diff):
+    """finer mechanism for a fourth repetition that still changes the state
+    (known findings are keyed by mechanism)"""
+    if set(diff) <= {'prs', 'comments'} and diff.get('prs'):
+        new_prs = diff['prs']
+        only_fresh_children = all(
+            isinstance(p, (list, tuple)) and len(p) == 6 and p[1] == ROBOT
+            and str(p[2]).startswith('w/') and p[4] == 'MERGED'
+            for p in new_prs)
+        nothing_to_merge = only_fresh_children and all(
+            world.rev('refs/heads/' + p[2]) and
+            world.is_ancestor('refs/heads/' + p[2], 'refs/heads/' + p[3])
+            for p in new_prs)
+        # the new children are announced; the message that was last on the
+        # pull request is then no longer "the same message twice in a row"
+        # and is posted again behind the announcement
+        only_announcements = all(
+            isinstance(cs, list) and cs and
+            all(isinstance(c, (list, tuple)) and c[0] == ROBOT for c in cs)
+            and 'Integration data created' in cs[0][1]
+            for cs in diff.get('comments', {}).values())
+        if nothing_to_merge and only_announcements:
+            return ('integration-pull-request-recreated-at-every-evaluation-'
+                    'for-an-integration-branch-with-nothing-to-merge')
+    return 'fourth-identical-evaluation-still-changes-the-state'
+
+
 def explore_state(world, acc, rng, max_evals=8):
     evs = all_evaluations(world)
     rng.shuffle(evs)
@@ -122,7 +149,7 @@ def explore_state(world, acc, rng, max_evals=8):
         third = a['steps'][3]
         if third['diff']:
             acc.violation(
-                'fourth-identical-evaluation-still-changes-the-state',
+                classify_non_convergence(world, third['diff']),
                 '%s repeated: statuses %s; fourth repeat changed %s'
                 % (list(ev), sts, str(third['diff'])[:300]), w)
         if a['steps'][2]['diff']:
